@@ -497,16 +497,22 @@ impl Ctx {
                 if !any {
                     // flaky under re-execution (should not happen: cases are deterministic up to
                     // the documented SystemRandom material) - report what proptest saw
+                    // the minimal case did not fail again: the failure depends on material drawn from SystemRandom
+                    // (e.g. which end has the larger salted hash). Report the failure that was actually seen.
                     let seen = first_seen.borrow().clone();
-                    self.violation(Viol::new(
-                        "unstable-failure",
-                        format!(
-                            "case failed during generation but not on re-execution: {:?}; first failure seen: {:?}",
-                            minimal,
-                            seen.as_ref().map(|v| (&v.sig, &v.desc))
-                        ),
-                        seen.map(|v| v.case).unwrap_or_else(|| json!({"debug": format!("{:?}", minimal)})),
-                    ));
+                    match seen {
+                        Some(mut v) => {
+                            v.desc = format!("{} [seen during generation; the shrunk case {:?} did not fail on re-execution - the outcome depends on random handshake material, replay repeats it]", v.desc, minimal);
+                            self.violation(v);
+                        }
+                        None => {
+                            self.violation(Viol::new(
+                                "unstable-failure",
+                                format!("case failed during generation but not on re-execution: {:?}", minimal),
+                                json!({"debug": format!("{:?}", minimal)}),
+                            ));
+                        }
+                    }
                 }
                 self.stop.store(true, Ordering::Relaxed);
             }
